@@ -106,11 +106,16 @@ func (this *partition) loadRaft(nodeIds []uint64) error {
 	this.raftMu.Lock()
 	defer this.raftMu.Unlock()
 
-	var err error
-	this.raft, err = raft.NewRaftGroup(this.id, nodeIds, this.wal, this.raftTransport)
+	if this.raft != nil {
+		// Already loaded (e.g. by an add-node change applied before the allocator got to it)
+		return nil
+	}
+
+	group, err := raft.NewRaftGroup(this.id, nodeIds, this.wal, this.raftTransport)
 	if err != nil {
 		return err
 	}
+	this.raft = group
 	if err := this.raft.RegisterProcessFn(this.process); err != nil {
 		return err
 	}
